@@ -150,7 +150,8 @@ let handle (stack : string) (args : string list) : string =
              "G" ^ Buffer.contents out ^ Printf.sprintf " E%d" !off)
     | ["wf"; s] -> if BinIOProofs.wf_fld st (get s) then "WF" else "NOT_WF"
     | ["copy"; d; s] -> slots.(int_of_string d) <- Some (get s); "OK"
-    | ["cassign"; d; s] -> ignore (get d); slots.(int_of_string d) <- Some (get s); "OK"
+    | ["cassign"; d; s] -> slots.(int_of_string d) <- Some (get s); "OK"   (* the destination may be a moved-from field *)
+    | ["move"; d; s] -> let v = get s in slots.(int_of_string d) <- Some v; slots.(int_of_string s) <- None; "OK"
     | ["massign"; d; s] -> ignore (get d); let v = get s in
         if d <> s then (slots.(int_of_string d) <- Some v; slots.(int_of_string s) <- None); "OK"
     | ["del"; d] -> slots.(int_of_string d) <- None; "OK"
